@@ -222,3 +222,41 @@ func Encoded() any { return nil }
 // NoSummaries runs f with the engine's callee summaries disabled (the real SSA
 // bodies are executed); natively it just runs f.
 func NoSummaries(f func()) { f() }
+
+// ParamOr returns a job parameter or def when the job does not set it.
+func ParamOr(name string, def int) int {
+	if v, ok := file.Params[name]; ok {
+		return int(v)
+	}
+	return def
+}
+
+// ---- file system access for harnesses that drive the real app.Context ----
+// Under the engine these act on its virtual file system; natively on real files
+// (harnesses use paths below /tmp/zzverif-fs).
+
+func FSWrite(path string, content string) {
+	os.MkdirAll(dirOf(path), 0o755)
+	if err := os.WriteFile(path, []byte(content), 0o644); err != nil {
+		panic(err)
+	}
+}
+
+func FSRead(path string) (string, bool) {
+	b, err := os.ReadFile(path)
+	if err != nil {
+		return "", false
+	}
+	return string(b), true
+}
+
+func FSReset() { os.RemoveAll("/tmp/zzverif-fs") }
+
+func dirOf(p string) string {
+	for i := len(p) - 1; i >= 0; i-- {
+		if p[i] == '/' {
+			return p[:i]
+		}
+	}
+	return "."
+}
